@@ -581,13 +581,23 @@ def main():
         lines, stats = gen_defect_cases(rng, n, big)
     elif kind == 'lookup':
         lines, stats = gen_lookup_cases(rng, n, big)
-    elif kind == 'mt':
+    elif kind in ('mt', 'mtwide'):
         # ONE schema, many valid / re-encoded / mutated inputs: the multi-threaded workload (C17)
         sch = rand_schema(rng, nmsgs=3, big=big)
+        wide = []
+        if kind == 'mtwide':
+            # a message type with more than 128 fields (the parser's required-field bitmap no longer fits its stack
+            # array) and with required fields, so that whatever the parser keeps per call for wide messages is exercised
+            # by several threads at once
+            for _try in range(200):
+                sch = rand_schema(rng, nmsgs=3, big=True, syntax=2)
+                wide = [i for i, m in enumerate(sch.msgs) if len(m.fields) > 128 and any(f.label == L_REQ for f in m.fields)]
+                if wide:
+                    break
         lines = sch.lines()
-        stats = {'inputs': 0}
+        stats = {'inputs': 0, 'wide_types': len(wide)}
         for _ in range(n):
-            ty = rng.randrange(len(sch.msgs))
+            ty = rng.choice(wide) if (wide and rng.random() < 0.7) else rng.randrange(len(sch.msgs))
             m = rand_msg(rng, sch, ty)
             b = encode(sch, m, rng, {'pad': rng.random() < 0.5, 'shuffle': rng.random() < 0.5, 'split_msg': rng.random() < 0.3,
                                      'flip_packed': rng.random() < 0.3})
